@@ -1346,6 +1346,9 @@ class AdapterIndex:
             raise ValueError("Wildcards in the read not supported")
         if adapter.adapter_wildcards:
             raise ValueError("Wildcards in the adapter not supported")
+        if not set(adapter.sequence) <= set("ACGT"):
+            # The indexed strings are over the alphabet A, C, G, T
+            raise ValueError("Only A, C, G and T are supported in the adapter")
         k = int(len(adapter) * adapter.max_error_rate)
         if k > 3:
             raise ValueError("Error rate too high")
